@@ -223,7 +223,13 @@ Proof.
   apply map_ext. intros a. apply re_conj.
 Qed.
 
-Theorem correlogram_reversal_thm rp (x : list F) lag wfull NFFT nm be :
+End ShiftCor.
+
+Section RevCor.
+Context {F : Type} {OF : Ops F} {L : Laws OF}.
+Local Open Scope F_scope.
+Add Field FFsc3 : (fth (O:=OF)).
+Theorem correlogram_reversal_thm (tw : Z -> F) rp (x : list F) lag wfull NFFT nm be :
   correlogram tw rp (vrevconj x) None lag wfull NFFT nm be = correlogram tw rp x None lag wfull NFFT nm be.
 Proof.
   rewrite !correlogram_auto_unfold. cbv zeta. rewrite vrevconj_length.
@@ -241,4 +247,4 @@ Proof.
     rewrite (Rmul_comm (F_R (fth (O:=OF)))). f_equal; [f_equal; lia|f_equal; f_equal; lia]. }
   rewrite E. reflexivity.
 Qed.
-End ShiftCor.
+End RevCor.
